@@ -169,6 +169,7 @@ CFGS_Q = [
     dict(name="fast-rich", dt=200, rich=True),
     dict(name="slow", dt=100),
     dict(name="fast-nobpe", dt=200, client_kw=dict(best_price_execution=False)),
+    dict(name="fast-fullmatch", dt=200, client_kw=dict(simulated_full_match=True)),
 ]
 CFGS_T = [
     dict(name="fast-rich", dt=200, rich=True),
